@@ -33,3 +33,22 @@ package fox
 //@   requires c != nil && c.fox != nil && c.fox.clientip != nil && (c.route != nil ==> c.route.clientip != nil)
 //@   ensures special: c.route == nil ==> result0 == resolverIP(c.fox.clientip, box(c), hCalls) && result1 == resolverErr(c.fox.clientip, box(c), hCalls)
 //@   ensures matched: c.route != nil ==> result0 == resolverIP(c.route.clientip, box(c), hCalls) && result1 == resolverErr(c.route.clientip, box(c), hCalls)
+
+//@ -- ---------------------------------------------------------------- C12: CloneWith / Close
+
+//@ func (*cTx).CloneWith props C12 partial
+//@   requires c != nil && c.tree != nil && c.params != nil && c.tsrParams != nil
+//@   modifies cTx.req, cTx.w, cTx.route, cTx.scope, cTx.cachedQuery, cTx.tsr, C[Params], E[Param]
+//@   assume-at call copyWithResize[github.com/tigerwill90/fox.Params github.com/tigerwill90/fox.Param]#1 : pool-discipline: cp != nil && cp != c && cp.params != nil && cp.tsrParams != nil && cp.params != c.params && cp.tsrParams != c.tsrParams
+//@   assume-at call copyWithResize[github.com/tigerwill90/fox.Params github.com/tigerwill90/fox.Param]#2 : pool-discipline: cp != nil && cp != c && cp.params != nil && cp.tsrParams != nil && cp.params != c.params && cp.tsrParams != c.tsrParams
+//@   ensures copy: dyntypeIs(result, *cTx) && unbox(result, *cTx) != nil && unbox(result, *cTx).req == r && unbox(result, *cTx).w == w && unbox(result, *cTx).route == c.route && unbox(result, *cTx).scope == c.scope && unbox(result, *cTx).tsr == c.tsr
+//@   ensures fresh-query: unbox(result, *cTx).cachedQuery == nil
+
+//@ -- copies *src into *dst, growing dst when needed; src is only read
+//@ func copyWithResize[github.com/tigerwill90/fox.Params github.com/tigerwill90/fox.Param] props C12,C08 partial
+//@   requires dst != nil && src != nil && dst != src
+//@   modifies *dst, E[Param]
+//@   ensures len(*dst) == len(*src) && *src == old(*src)
+
+//@ func (*cTx).Close props C12 partial
+//@   requires c != nil && c.tree != nil
